@@ -88,6 +88,18 @@ def gen(ctx):
                 st = G.Clamp(B.vals(sk, lo), B.vals(sk, hi), G.Identity(sk, N))
                 st.lo_b, st.hi_b = lo, hi
                 add("clamp_value", "identity", st, B.coord_mix(rnd, sk, lo, hi, ncoord))
+                # A': the same box above another transformer that passes every coordinate on unchanged (a clamp / an
+                # out-of-range default with the full range of the type as its box, the identity permutation)
+                if G.isf(sk):
+                    flo, fhi = [G.enc(sk, -G.INF)] * N, [G.enc(sk, G.INF)] * N
+                else:
+                    flo, fhi = [G.enc(sk, G.IRANGE[sk][0])] * N, [G.enc(sk, G.IRANGE[sk][1])] * N
+                inner = [lambda: G.Clamp(B.vals(sk, flo), B.vals(sk, fhi), G.Identity(sk, N)),
+                         lambda: G.Shuffle(list(range(N)), G.Identity(sk, N)),
+                         lambda: G.Backup(B.vals(sk, flo), B.vals(sk, fhi), B.vals(sk, lo), G.Identity(sk, N))][(b + N) % 3]()
+                st = G.Clamp(B.vals(sk, lo), B.vals(sk, hi), inner)
+                st.lo_b, st.hi_b = lo, hi
+                add("clamp_value", "identity", st, B.coord_mix(rnd, sk, lo, hi, max(8, ncoord // 2)))
                 # B: clamp over the user-defined counting probe (M != N)
                 lo, hi = B.random_box(rnd, sk, N)
                 M = N % 4 + 1
